@@ -148,6 +148,7 @@ package bal_slb
 //@   nopanic nil
 //@   requires backRR != nil && backRR.backend != nil && wfBackendConf(conf)
 //@   modifies backRR.weight, backRR.current, backRR.weightSS.final, backRR.backend.Name, backRR.backend.Addr, backRR.backend.Port, backRR.backend.AddrInfo, backRR.backend.SubCluster
+//@   ensures[the_backend_gets_the_configured_address_key] backRR.backend.AddrInfo == addrKey(*conf.Addr, *conf.Port)
 
 //@ func (*BackendRR).UpdateWeight
 //@   props C09
@@ -174,8 +175,10 @@ package bal_slb
 //@   nopanic nil,index
 //@   requires forall i int :: 0 <= i && i < len(conf) ==> wfBackendConf(conf[i])
 //@   modifies nothing
-//@   ensures[a_fresh_map_of_well_formed_entries] result0 != nil && !allocated(result0) && (forall k string :: has(result0, k) ==> wfBackendConf(result0[k]))
-//@   loop 1 invariant[entries_so_far_are_well_formed] forall k string :: has(retVal, k) ==> wfBackendConf(retVal[k])
+//@   ensures[a_fresh_map_of_well_formed_entries] result0 != nil && !allocated(result0) && (forall k string :: has(result0, k) ==> wfBackendConf(result0[k]) && k == addrKey(*result0[k].Addr, *result0[k].Port))
+//@   ensures[every_configured_address_is_a_key] forall i int :: 0 <= i && i < len(conf) ==> has(result0, addrKey(*conf[i].Addr, *conf[i].Port))
+//@   loop 1 invariant[entries_so_far_are_well_formed] forall k string :: has(retVal, k) ==> wfBackendConf(retVal[k]) && k == addrKey(*retVal[k].Addr, *retVal[k].Port)
+//@   loop 1 invariant[addresses_so_far_are_keys] forall i int :: 0 <= i && i <= rangeindex ==> has(retVal, addrKey(*conf[i].Addr, *conf[i].Port))
 
 //@ func (*BalanceRR).Update
 //@   props C09
@@ -191,6 +194,7 @@ package bal_slb
 //@   ensures[the_new_list_is_live_and_duplicate_free] liveList(brr.backends)
 //@   ensures[every_old_backend_is_kept_or_released] forall i int :: 0 <= i && i < N ==> closed(old(brr.backends[i].backend.closeChan)) || (exists j int :: 0 <= j && j < len(brr.backends) && brr.backends[j] == old(brr.backends[i]))
 //@   ensures[every_new_backend_is_an_old_one_or_fresh] forall j int :: 0 <= j && j < len(brr.backends) ==> !allocated(brr.backends[j]) || (exists i int :: 0 <= i && i < N && brr.backends[j] == old(brr.backends[i]))
+//@   ensures[every_configured_address_is_selectable_afterwards] forall i int :: 0 <= i && i < len(conf) ==> (exists j int :: 0 <= j && j < len(brr.backends) && brr.backends[j].backend.AddrInfo == addrKey(*conf[i].Addr, *conf[i].Port))
 //@   ensures[existing_backends_keep_availability_and_counters] forall b *backend.BfeBackend :: allocated(b) ==> b.avail == old(b.avail) && b.connNum == old(b.connNum) && b.failNum == old(b.failNum) && b.succNum == old(b.succNum)
 //@   loop 1 invariant[cursor] 0 <= index && index <= N && brr != nil
 //@   loop 1 invariant[the_old_list_is_untouched] sameslice(brr.backends, OLD) && (forall k int :: 0 <= k && k < N ==> brr.backends[k] == old(brr.backends[k]) && brr.backends[k] != nil && brr.backends[k].backend == old(brr.backends[k].backend) && brr.backends[k].backend != nil && brr.backends[k].backend.closeChan == old(brr.backends[k].backend.closeChan))
@@ -202,6 +206,8 @@ package bal_slb
 //@   loop 1 invariant[the_old_backends_existed_at_entry] forall k int :: 0 <= k && k < N ==> allocated(brr.backends[k]) && allocated(brr.backends[k].backend) && allocated(brr.backends[k].backend.closeChan)
 //@   loop 1 invariant[kept_backends_are_distinct] forall j int :: forall k int :: 0 <= j && j < k && k < len(backendsNew) ==> backendsNew[j] != backendsNew[k]
 //@   loop 1 invariant[config_entries_are_well_formed] confMap != nil && (forall k string :: has(confMap, k) ==> wfBackendConf(confMap[k]))
+//@   loop 1 invariant[config_keys_are_address_keys] forall k string :: has(confMap, k) ==> k == addrKey(*confMap[k].Addr, *confMap[k].Port)
+//@   loop 1 invariant[every_configured_address_is_pending_or_kept] forall i int :: 0 <= i && i < len(conf) ==> has(confMap, addrKey(*conf[i].Addr, *conf[i].Port)) || (exists j int :: 0 <= j && j < len(backendsNew) && backendsNew[j].backend.AddrInfo == addrKey(*conf[i].Addr, *conf[i].Port))
 //@   loop 1 invariant[counters_untouched] forall b *backend.BfeBackend :: allocated(b) ==> b.avail == old(b.avail) && b.connNum == old(b.connNum) && b.failNum == old(b.failNum) && b.succNum == old(b.succNum)
 //@   loop 2 invariant[the_old_list_is_untouched] brr != nil && sameslice(brr.backends, OLD) && (forall k int :: 0 <= k && k < N ==> brr.backends[k] == old(brr.backends[k]) && brr.backends[k] != nil && brr.backends[k].backend == old(brr.backends[k].backend) && brr.backends[k].backend != nil && brr.backends[k].backend.closeChan == old(brr.backends[k].backend.closeChan))
 //@   loop 2 invariant[the_new_list_is_a_fresh_array] cap(backendsNew) == 0 || !allocated(backendsNew)
@@ -212,4 +218,6 @@ package bal_slb
 //@   loop 2 invariant[new_entries_exist] forall j int :: 0 <= j && j < len(backendsNew) ==> allocatedNow(backendsNew[j]) && allocatedNow(backendsNew[j].backend) && allocatedNow(backendsNew[j].backend.closeChan)
 //@   loop 2 invariant[new_entries_are_distinct] forall j int :: forall k int :: 0 <= j && j < k && k < len(backendsNew) ==> backendsNew[j] != backendsNew[k] && backendsNew[j].backend != backendsNew[k].backend && backendsNew[j].backend.closeChan != backendsNew[k].backend.closeChan
 //@   loop 2 invariant[config_entries_are_well_formed] forall k string :: has(confMap, k) ==> wfBackendConf(confMap[k])
+//@   loop 2 invariant[config_keys_are_address_keys] forall k string :: has(confMap, k) ==> k == addrKey(*confMap[k].Addr, *confMap[k].Port)
+//@   loop 2 invariant[every_configured_address_is_pending_or_listed] forall i int :: 0 <= i && i < len(conf) ==> (has(confMap, addrKey(*conf[i].Addr, *conf[i].Port)) && !visited(addrKey(*conf[i].Addr, *conf[i].Port))) || (exists j int :: 0 <= j && j < len(backendsNew) && backendsNew[j].backend.AddrInfo == addrKey(*conf[i].Addr, *conf[i].Port))
 //@   loop 2 invariant[counters_untouched] forall b *backend.BfeBackend :: allocated(b) ==> b.avail == old(b.avail) && b.connNum == old(b.connNum) && b.failNum == old(b.failNum) && b.succNum == old(b.succNum)
